@@ -154,7 +154,7 @@ def body_factory(tier, seed):
 
 
 def run(rep, tier, seed):
-    return C.standard_run(rep, PROP, ["Model/CaseNet.vo", "Model/CaseHistory.vo"], body_factory(tier, seed), rule=(
+    return C.standard_run(rep, PROP, ["Model/CaseNet.vo", "Model/CaseHistory.vo"], [body_factory(tier, seed + 1000 * i) for i in range(3 if tier == "thorough" else 1)], rule=(
         "every OCPP error class x descriptions (None, empty, ASCII, non-ASCII, long) x details (None, {}, nested JSON with "
         "nulls) x suppression on/off raised by a handler on a real endpoint and received by a real caller; ten non-OCPP "
         "exception types (some carrying code/description/details attributes, all carrying a secret marker searched for in every "
